@@ -100,8 +100,9 @@ def create_hamming_parity_submatrix(mu: int, extended: bool = False, dtype: torc
 
     # For extended Hamming code, add an overall parity check
     if extended:
-        # Add a row of all ones to the parity submatrix
-        parity_extension = torch.ones((k, 1), dtype=dtype, device=device)
+        # The extension bit is the overall parity of each generator row (information bit plus its
+        # mu parity bits), so that every codeword has even weight and the distance becomes 4
+        parity_extension = (1 + parity_submatrix.sum(dim=1, keepdim=True)) % 2
         parity_submatrix = torch.cat([parity_submatrix, parity_extension], dim=1)
 
     return parity_submatrix
